@@ -405,7 +405,11 @@ func (r *c11nRun) opIssue(op c11nOp) {
 		Issuer:            f.dids[owner].URI(),
 		CredentialSubject: []any{map[string]any{"id": c11nHolder}},
 	}
+	// issued 20 days ago (after the issuer's first key appeared), so that reference times between issuance and
+	// revocation exist
+	issuer.TimeFunc = func() time.Time { return time.Now().Add(-20 * 24 * time.Hour) }
 	cred, err := f.iss.Issue(f.ctx, tmpl, issuer.CredentialOptions{})
+	issuer.TimeFunc = time.Now
 	r.x.NoErr(err, "Issue")
 	r.creds = append(r.creds, &c11nCred{vc: *cred, owner: owner})
 }
@@ -590,6 +594,11 @@ func (r *c11nRun) opReg(op c11nOp) (genuineAccepted bool) {
 	}
 	if accepted {
 		r.revoked[rev.Subject.String()] = true
+		for _, o := range r.creds {
+			if o.vc.ID.String() == rev.Subject.String() {
+				o.revDates = append(o.revDates, rev.Date)
+			}
+		}
 		if !r.seenCred[id.String()] && rev.Subject.String() == id.String() {
 			x.Class("netrev:revocation-before-credential")
 		}
@@ -598,29 +607,128 @@ func (r *c11nRun) opReg(op c11nOp) (genuineAccepted bool) {
 	return accepted && expect == "accept"
 }
 
+// refTime turns a reference-time kind into validAt for credential c (nil for "").
+func (r *c11nRun) refTime(c *c11nCred, kind string) *time.Time {
+	now := time.Now()
+	issued := c.vc.IssuanceDate
+	rev := now // without an accepted revocation the "rev" kinds are taken around now
+	for i, d := range c.revDates {
+		if i == 0 || d.Before(rev) {
+			rev = d
+		}
+	}
+	var t time.Time
+	switch kind {
+	case "":
+		return nil
+	case "now":
+		t = now
+	case "issuance":
+		t = issued
+	case "mid":
+		t = issued.Add(rev.Sub(issued) / 2)
+	case "rev-10s":
+		t = rev.Add(-10 * time.Second)
+	case "rev-6s":
+		t = rev.Add(-6 * time.Second)
+	case "rev-4s":
+		t = rev.Add(-4 * time.Second)
+	case "rev":
+		t = rev
+	case "rev+1s":
+		t = rev.Add(time.Second)
+	case "far-past":
+		t = issued.Add(-365 * 24 * time.Hour)
+	case "far-future":
+		t = now.Add(365 * 24 * time.Hour)
+	default:
+		r.x.Fatalf("unknown reference time %q", kind)
+	}
+	return &t
+}
+
+// presentation builds a JSON-LD presentation of the holder carrying c, signed one second before the reference time.
+func (r *c11nRun) presentation(c *c11nCred, at *time.Time) vc.VerifiablePresentation {
+	f := r.f
+	created := time.Now().Add(-time.Second)
+	if at != nil {
+		created = at.Add(-time.Second)
+	}
+	holder := did.MustParseDID(c11nHolder)
+	id := ssi.MustParseURI(fmt.Sprintf("%s#vp-%d", c11nHolder, created.UnixNano()))
+	unsigned := vc.VerifiablePresentation{
+		ID:                   &id,
+		Context:              []ssi.URI{vc.VCContextV1URI(), signature.JSONWebSignature2020Context},
+		Type:                 []ssi.URI{vc.VerifiablePresentationTypeV1URI()},
+		VerifiableCredential: []vc.VerifiableCredential{c.vc},
+	}
+	_ = holder
+	b, err := unsigned.MarshalJSON()
+	r.x.NoErr(err, "marshal presentation")
+	var doc proof.Document
+	r.x.NoErr(json.Unmarshal(b, &doc), "presentation as document")
+	res, err := proof.NewLDProof(proof.ProofOptions{Created: created, ProofPurpose: "assertionMethod"}).
+		Sign(f.ctx, doc, signature.JSONWebSignature2020{ContextLoader: f.ld.DocumentLoader(), Signer: f.keys}, c11nHolder+"#key-1")
+	r.x.NoErr(err, "sign presentation")
+	rb, _ := json.Marshal(res)
+	vp, err := vc.ParseVerifiablePresentation(string(rb))
+	r.x.NoErr(err, "parse presentation")
+	return *vp
+}
+
+// opVerify: a verification that happens now, with a reference time (validAt) of any kind. 'Later' in the statement is
+// about when the verification happens: once the node has stored a revocation, every verification of that credential
+// fails as revoked whatever reference time it is asked for - unless the credential is not valid at that reference time
+// anyway (before its issuance, before the keys existed), where any refusal will do.
 func (r *c11nRun) opVerify(op c11nOp) bool {
+	x := r.x
 	c := r.pick(op)
 	if c == nil {
 		return false
 	}
 	r.seenCred[c.vc.ID.String()] = true
-	err := r.v.Verify(c.vc, true, true, nil)
-	want := r.revoked[c.vc.ID.String()]
-	got := errors.Is(err, types.ErrRevoked)
-	if got != want {
-		r.x.Violate(fmt.Sprintf("netrev:verify:want-revoked=%v", want), "Verify(%s) = %v", c.vc.ID, err)
-		return true
+	at := r.refTime(c, op.T)
+	validThen := at == nil || !at.Before(c.vc.IssuanceDate) // otherwise valid at the reference time
+	how := "Verify"
+	var err error
+	var isRevoked bool
+	if op.P {
+		how = "VerifyVP"
+		if at != nil && at.Before(r.f.t0.Add(time.Minute)) {
+			validThen = false // the holder's key did not exist yet
+		}
+		_, err = r.v.VerifyVP(r.presentation(c, at), true, true, at)
+		isRevoked = err != nil && strings.Contains(err.Error(), types.ErrRevoked.Error())
+	} else {
+		err = r.v.Verify(c.vc, true, true, at)
+		isRevoked = errors.Is(err, types.ErrRevoked)
 	}
-	if !want && err != nil {
-		r.x.Fatalf("credential that is not revoked failed verification: %v", err)
+	want := r.revoked[c.vc.ID.String()]
+	bucket := op.T
+	if bucket == "" {
+		bucket = "nil"
+	}
+	x.Classf("netrev:verify:%s:ref=%s:revoked=%v", how, bucket, want)
+	switch {
+	case !validThen:
+		// no verdict from this property; acceptance of a credential that did not exist yet is not C11's business
+		x.Class("netrev:verify:reference-time-before-validity")
+	case want && !isRevoked:
+		x.Violate(fmt.Sprintf("netrev:verify:want-revoked=true:%s:ref=%s", how, bucket), "%s(%s, validAt=%v) = %v although the node holds a revocation (dates %v)", how, c.vc.ID, at, err, c.revDates)
+		return true
+	case !want && isRevoked:
+		x.Violate(fmt.Sprintf("netrev:verify:want-revoked=false:%s:ref=%s", how, bucket), "%s(%s, validAt=%v) = %v", how, c.vc.ID, at, err)
+		return true
+	case !want && err != nil:
+		x.Fatalf("credential that is not revoked failed %s at %v: %v", how, at, err)
 	}
 	if want {
 		rv, gerr := r.v.GetRevocation(*c.vc.ID)
 		if gerr != nil || rv == nil || rv.Subject.String() != c.vc.ID.String() {
-			r.x.Violate("netrev:get-revocation", "GetRevocation(%s) = %v, %v", c.vc.ID, rv, gerr)
+			x.Violate("netrev:get-revocation", "GetRevocation(%s) = %v, %v", c.vc.ID, rv, gerr)
 		}
 	}
-	r.x.Classf("netrev:verify:revoked=%v", want)
+	x.Classf("netrev:verify:revoked=%v", want)
 	return true
 }
 
